@@ -36,10 +36,10 @@ CHECKS = {
                 technique="bounded-exhaustive enumeration of RESP values x split points x raw byte strings against a strict reference framer",
                 text="All grammar values up to a nesting/width bound round-trip; every 1- and 2-cut split of every stream (single packets and pipelines) through the session codec, the hint-driven client decoder and the stateless multi decoder yields the one-piece packet sequence without consuming incomplete data; every byte string up to a length bound over the framing alphabet (plus all short suffixes after mid-packet prefixes) gets the verdict of a strict reference framer (valid => same value and length, prefix => None untouched, invalid => never a value).",
                 note="Trusted: the reference framer in enummc (written from the RESP specification; tolerant where leniency still yields the intended value: '+' sign in lengths, lone CR inside a line). Bounds: lengths / nesting stated in the evidence."),
-    "C09": dict(engine="enummc", cat="model_checking", ref="3/C09",
-                technique="bounded-exhaustive enumeration of keys (every brace placement) against a bit-wise CRC16-XMODEM + hash-tag reference",
-                text="KEY PART ONLY in this round: every byte string up to the length bound over {'{','}','a','b',0x00,0xFF} plus published vectors is hashed by the real generate_slot/same_slot and compared with a reference written from the Redis Cluster specification. The layout / MOVED / multi-key part of the property is not yet decided (planned: single-proxy simnet).",
-                note="Partial claim: slot computation only. Trusted: reference CRC/hash-tag implementation (self-checked against published vectors)."),
+    "C09": dict(engine="simnet", cat="model_checking", ref="3/C09",
+                technique="bounded-exhaustive enumeration of keys (every brace placement) against a bit-wise CRC16/hash-tag reference, and of slot layouts x probe slots x multi-key shapes on one real proxy over a harness-owned network",
+                text="Keys: every byte string up to the length bound over {'{','}','a','b',0x00,0xFF} plus published vectors, real generate_slot/same_slot vs a reference written from the Redis Cluster specification. Routing: every assignment of six boundary segments to {local node 1, local node 2, peer X, peer Y, nobody} is installed through a real UMCTL SETCLUSTER on a real ForwardHandler and probed at the first/last slot of each segment (GET and CLUSTER KEYSLOT), all 16384 slots on a sample of layouts; oracle: local => executed on exactly that node's stand-in, peer => MOVED <slot> <peer>, nobody => error and no execution; 20 multi-key shapes (MGET/MSET/MSETNX/DEL/EXISTS/EVAL/BLPOP) must be refused unless all keys share a slot and then touch only the owner.",
+                note="Trusted: reference CRC/hash-tag implementation (self-checked against published vectors); the in-harness Redis stand-in; the harness mini-session that feeds ForwardHandler::handle_cmd_ctx (handle_session itself is covered by C08)."),
     "C17": dict(engine="enummc", cat="model_checking", ref="3/C17",
                 technique="bounded-exhaustive enumeration of control-plane values x both encodings x all single-token mutations against strict reference parsers",
                 text="Generated ProxyClusterMeta / ReplicatorMeta / MigrationTaskMeta values are encoded by the real encoders; each encoding (plain, compressed) must decode to an equal value, and every single-token deletion, truncation and replacement (and 64 single-character corruptions of each compressed payload) is judged by a strict reference parser: not an encoding => the real parser must reject, an encoding of w => the real parser must return w.",
